@@ -453,12 +453,15 @@ class Attack:
                 peak = tracemalloc.get_traced_memory()[1] - base
                 ctx.count('frames_allocation_checked')
                 bound = 400 * max(size, 1) + 600000
-                if peak > bound and not getattr(self, 'confirming', False):
+                at = len(self.ops)
+                if peak > bound and at not in getattr(self, 'confirm_at', ()):
                     # tracemalloc sees the whole process: one-time lazies
-                    # (source lines cached for a first traceback, codec and
-                    # regex caches) land in whichever frame comes first.
-                    # The attack is deterministic: run it once more, warm.
-                    raise AllocRetry()
+                    # (source lines cached for a first traceback or warning,
+                    # codec and regex caches) land in whichever frame comes
+                    # first.  The attack is deterministic: run it once more,
+                    # warm; only a peak at the *same* frame of the attack
+                    # counts.
+                    raise AllocRetry(at)
                 if peak > bound:
                     return self.fail(
                         'processing a %d-byte frame allocated %d bytes '
@@ -834,22 +837,22 @@ class AllocRetry(Exception):
 
 
 def run_case(ctx, k, traced=False):
-    rng = ctx.case_rng(k)
-    a = Attack(ctx, rng, 'sync' if k % 2 == 0 else 'async', k)
-    try:
-        a.run(traced)
-        return
-    except AllocRetry:
-        ctx.count('allocation_peaks_measured_again')
-    finally:
-        a.close()
-    rng = ctx.case_rng(k)
-    a = Attack(ctx, rng, 'sync' if k % 2 == 0 else 'async', k)
-    a.confirming = True
-    try:
-        a.run(traced)
-    finally:
-        a.close()
+    seen = set()
+    for _ in range(5):
+        rng = ctx.case_rng(k)
+        a = Attack(ctx, rng, 'sync' if k % 2 == 0 else 'async', k)
+        a.confirm_at = set(seen)
+        try:
+            a.run(traced)
+            return
+        except AllocRetry as e:
+            ctx.count('allocation_peaks_measured_again')
+            seen.add(e.args[0])
+        finally:
+            a.close()
+    # peaks kept turning up at other frames of the same attack: nothing of
+    # the attack's own making; no verdict on allocation for this case
+    ctx.count('allocation_peaks_unsettled')
 
 
 def run(ctx):
